@@ -1186,16 +1186,20 @@ decl(struct scope *s, struct func *f)
 struct decl *
 stringdecl(struct expr *expr)
 {
-	static struct map strings;
+	static struct map pools[3];  /* one pool per element width (1, 2, 4) */
+	struct map *strings;
 	struct mapkey key;
 	void **entry;
 	struct decl *d;
+	size_t width;
 
-	if (!strings.len)
-		mapinit(&strings, 64);
 	assert(expr->kind == EXPRSTRING);
-	mapkey(&key, expr->u.string.data, expr->u.string.size);
-	entry = mapput(&strings, &key);
+	width = expr->type->base->size;
+	strings = &pools[width == 1 ? 0 : width == 2 ? 1 : 2];
+	if (!strings->len)
+		mapinit(strings, 64);
+	mapkey(&key, expr->u.string.data, expr->u.string.size * width);
+	entry = mapput(strings, &key);
 	d = *entry;
 	if (!d) {
 		d = mkdecl("string", DECLOBJECT, expr->type, QUALNONE, LINKNONE);
